@@ -3,7 +3,7 @@
 From ClapModel Require Import Base.Bytes Base.Machine Base.Utf8.
 From ClapModel Require Import Parse.Cmd Parse.Build Parse.Valid Parse.Matcher Parse.Errors Parse.Validator Parse.Parser.
 From ClapModel Require Import ParseProofs.Spelling ParseProofs.Dispatch ParseProofs.SpellingLine.
-From ClapModel Require Import ParseProofs.SpellingStep ParseProofs.SpellingDash.
+From ClapModel Require Import ParseProofs.SpellingStep ParseProofs.SpellingDash ParseProofs.SpellingTree.
 From Coq Require Import ZArith List.
 From RecordUpdate Require Import RecordSet.
 Import RecordSetNotations.
@@ -621,3 +621,145 @@ Theorem C08_dashdash_empty_tail_witness :
   out_kind (parse_top exd_cmd [[112]; t_a; t_b; t_c; dd]) = Some EMissingRequiredArgument.
 Proof. exact dashdash_empty_tail_witness. Qed.
 Print Assumptions C08_dashdash_empty_tail_witness.
+
+(** ** a rewritten occurrence ANYWHERE: arbitrary prefix, any level of the tree, compositions (ParseProofs/SpellingTree.v) *)
+
+(** [lvl_equiv]: one level of [get_matches_with] cannot tell two loop results apart; both bisimulation relations imply it *)
+Theorem C08_lvl_equiv_meaning : forall c r1 r2, lvl_equiv c r1 r2 <->
+  forall f, gmw_rel (post c (do lr <- r1; dispatch_lr c f lr)) (post c (do lr <- r2; dispatch_lr c f lr)).
+Proof. exact (fun c r1 r2 => iff_refl _). Qed.
+Print Assumptions C08_lvl_equiv_meaning.
+
+Theorem C08_lvl_equiv_sources : forall c r1 r2, is_set s_ignore_errors c = false ->
+  (r1 = r2 -> lvl_equiv c r1 r2) /\
+  (res_rel c r1 r2 -> lvl_equiv c r1 r2) /\
+  (is_set s_dont_delimit_trailing c = false -> dd_rel r1 r2 -> lvl_equiv c r1 r2) /\
+  (lvl_equiv c r1 r2 -> lvl_equiv c r2 r1) /\
+  (forall r3, lvl_equiv c r1 r2 -> lvl_equiv c r2 r3 -> lvl_equiv c r1 r3).
+Proof.
+  exact (fun c r1 r2 IE => conj (lvl_of_eq c r1 r2) (conj (lvl_of_res_rel c r1 r2 IE)
+          (conj (fun D => lvl_of_dd_rel c r1 r2 IE D) (conj (lvl_sym c r1 r2) (fun r3 => lvl_trans c r1 r2 r3))))).
+Qed.
+Print Assumptions C08_lvl_equiv_sources.
+
+(** what [occ_at] says (inversion principle, so that the definition cannot drift) *)
+Theorem C08_occ_at_meaning : forall TX TY c pre st0, occ_at TX TY c pre st0 ->
+  (forall ls, pos_counter c TX ls = pos_counter c TY ls) /\
+  ((exists ls' st', run c pre TX ls_top st0 = inl (ls', st') /\
+                    lvl_equiv c (parse_loop c TX ls' st') (parse_loop c TY ls' st')) \/
+   (exists n vaf st tok pre' sc0 sc,
+      is_set s_ignore_errors c = false /\
+      run c pre TX ls_top st0 = inr (XSub n false vaf st, tok, pre') /\
+      find_subcommand c n = Some sc0 /\ build_subcommand c (c_name sc0) = Some sc /\
+      occ_at TX TY sc pre' ps_new)).
+Proof. exact occ_at_meaning. Qed.
+Print Assumptions C08_occ_at_meaning.
+
+(** the occurrence anywhere in the tree: [get_matches_with] agrees at every fuel *)
+Theorem C08_respell_tree : forall TX TY c pre st0, occ_at TX TY c pre st0 ->
+  forall f, gmw_rel (get_matches_with f c (pre ++ TX) st0) (get_matches_with f c (pre ++ TY) st0).
+Proof. exact respell_tree. Qed.
+Print Assumptions C08_respell_tree.
+
+Theorem C08_respell_top : forall TX TY c0 bin pre,
+  is_set s_no_binary_name c0 = false ->
+  let c := build_self (top_cmd c0 bin) in
+  is_set s_ignore_errors c = false -> occ_at TX TY c pre ps_new ->
+  parse_top c0 (bin :: pre ++ TX) = parse_top c0 (bin :: pre ++ TY).
+Proof. exact respell_top. Qed.
+Print Assumptions C08_respell_top.
+
+(** behind an arbitrary prefix of its own level *)
+Theorem C08_respell_anywhere : forall c0 bin pre TX TY ls' st',
+  is_set s_no_binary_name c0 = false ->
+  let c := build_self (top_cmd c0 bin) in
+  is_set s_ignore_errors c = false -> (forall ls, pos_counter c TX ls = pos_counter c TY ls) ->
+  run c pre TX ls_top ps_new = inl (ls', st') ->
+  lvl_equiv c (parse_loop c TX ls' st') (parse_loop c TY ls' st') ->
+  parse_top c0 (bin :: pre ++ TX) = parse_top c0 (bin :: pre ++ TY).
+Proof. exact respell_anywhere. Qed.
+Print Assumptions C08_respell_anywhere.
+
+(** COMPOSITION: any chain of rewrites, each applicable to the line the previous ones produced *)
+Theorem C08_respell_chain_meaning : forall c L L', respell_chain c L L' ->
+  L = L' \/ exists pre TX TY, L = pre ++ TX /\ occ_at TX TY c pre ps_new /\ respell_chain c (pre ++ TY) L'.
+Proof. exact respell_chain_meaning. Qed.
+Print Assumptions C08_respell_chain_meaning.
+
+Theorem C08_spelling_compose : forall c0 bin L L',
+  is_set s_no_binary_name c0 = false ->
+  let c := build_self (top_cmd c0 bin) in
+  is_set s_ignore_errors c = false -> respell_chain c L L' ->
+  parse_top c0 (bin :: L) = parse_top c0 (bin :: L').
+Proof. exact respell_chain_top. Qed.
+Print Assumptions C08_spelling_compose.
+
+(** sufficient conditions for the look-ahead hypothesis *)
+Theorem C08_lookahead_criteria : forall c,
+  (no_lookahead c -> forall r1 r2 ls, pos_counter c r1 ls = pos_counter c r2 ls) /\
+  (forall t1 t2 r1 r2 ls, flag_tok t1 -> flag_tok t2 -> pa_is_negative_number t1 = pa_is_negative_number t2 ->
+     possible_subcommand c t1 false = None -> possible_subcommand c t2 false = None ->
+     pos_counter c (t1 :: r1) ls = pos_counter c (t2 :: r2) ls) /\
+  (forall t1 t2 n1 n2 r1 r2 ls,
+     possible_subcommand c t1 false = Some n1 -> possible_subcommand c t2 false = Some n2 ->
+     is_escape t1 = false -> to_long t1 = None -> to_short t1 = None ->
+     is_escape t2 = false -> to_long t2 = None -> to_short t2 = None ->
+     pos_counter c (t1 :: r1) ls = pos_counter c (t2 :: r2) ls).
+Proof.
+  exact (fun c => conj (fun N r1 r2 ls => la_none c r1 r2 N ls)
+          (conj (fun t1 t2 r1 r2 ls F1 F2 NN P1 P2 => la_flags c t1 t2 r1 r2 F1 F2 NN P1 P2 ls)
+                (fun t1 t2 n1 n2 r1 r2 ls P1 P2 E1 L1 S1 E2 L2 S2 =>
+                   la_subs_some c t1 t2 n1 n2 r1 r2 P1 P2 E1 L1 S1 E2 L2 S2 ls))).
+Qed.
+Print Assumptions C08_lookahead_criteria.
+
+Theorem C08_lookahead_classes_meaning : forall c,
+  (no_lookahead c <->
+     is_set s_allow_missing_pos c = false /\
+     (existsb (fun a => a_is_multiple a && negb (positional_count c =? opt_default 0 (a_index a))) (positionals c)
+      && match last (map Some (positionals c)) None with Some p => negb (a_last p) | None => false end) = false) /\
+  (forall t, flag_tok t <-> is_escape t = false /\ (to_long t <> None \/ to_short t <> None)).
+Proof. exact (fun c => conj (iff_refl _) (fun t => iff_refl _)). Qed.
+Print Assumptions C08_lookahead_classes_meaning.
+
+(** instances: [--opt=v] vs [--opt v], and a cluster vs its flags, behind ANY prefix the loop runs through *)
+Theorem C08_long_space_vs_eq_anywhere : forall c0 bin pre l v a r tokA tokB rest ls' st' x0,
+  is_set s_no_binary_name c0 = false ->
+  let c := build_self (top_cmd c0 bin) in
+  is_set s_ignore_errors c = false -> is_set s_sub_precedence c = false ->
+  (forall ls, pos_counter c (tokA :: rest) ls = pos_counter c (tokB :: v :: rest) ls) ->
+  run c pre (tokA :: rest) ls_top ps_new = inl (ls', st') ->
+  flag_site c ls' tokA -> flag_site c ls' tokB ->
+  to_long tokA = Some (l, true, Some v) -> to_long tokB = Some (l, true, None) ->
+  lookup_long c l = Some a -> single_opt c a r -> plain_value a v -> fs_skip st' = 0 ->
+  react c (Some ILong) SCmdLine a [v] None st' = ROk x0 ->
+  parse_top c0 (bin :: pre ++ tokA :: rest) = parse_top c0 (bin :: pre ++ tokB :: v :: rest).
+Proof. exact long_space_vs_eq_anywhere. Qed.
+Print Assumptions C08_long_space_vs_eq_anywhere.
+
+Theorem C08_cluster_vs_singles_anywhere : forall c0 bin pre chs ch0 rest ls' st',
+  is_set s_no_binary_name c0 = false ->
+  let c := build_self (top_cmd c0 bin) in
+  is_set s_ignore_errors c = false ->
+  (forall x, find_short_subcmd c x = None) -> (forall t vaf, possible_subcommand c (45 :: t) vaf = None) ->
+  (forall ls, pos_counter c ((45 :: ch0 :: chs) :: rest) ls = pos_counter c (map (fun ch => [45; ch]) (ch0 :: chs) ++ rest) ls) ->
+  run c pre ((45 :: ch0 :: chs) :: rest) ls_top ps_new = inl (ls', st') ->
+  Forall (fun ch => ch < 128 /\ ch <> 45 /\ exists a, get_short c ch = Some a /\ a_takes_value a = false) (ch0 :: chs) ->
+  l_trailing ls' = false -> l_pst ls' = PSValuesDone -> no_hyphen_pos c (l_pos ls') -> fs_skip st' = 0 ->
+  parse_top c0 (bin :: pre ++ (45 :: ch0 :: chs) :: rest) =
+  parse_top c0 (bin :: pre ++ map (fun ch => [45; ch]) (ch0 :: chs) ++ rest).
+Proof. exact cluster_vs_singles_anywhere. Qed.
+Print Assumptions C08_cluster_vs_singles_anywhere.
+
+(** ** subcommand alias / inferred prefix vs canonical name: two tokens the lookup answers with names that
+    [find_subcommand] resolves to the same child are level-equivalent (with [C08_respell_anywhere]: whole lines) *)
+Theorem C08_sub_name_respell : forall c t1 t2 n1 n2 rest ls st,
+  l_trailing ls = false ->
+  (is_set s_sub_precedence c || match l_pst ls with PSValuesDone => true | _ => false end) = true ->
+  possible_subcommand c t1 (l_vaf ls) = Some n1 -> possible_subcommand c t2 (l_vaf ls) = Some n2 ->
+  (beq n1 s_help && negb (is_set s_disable_help_sub c)) = false ->
+  (beq n2 s_help && negb (is_set s_disable_help_sub c)) = false ->
+  find_subcommand c n1 = find_subcommand c n2 ->
+  lvl_equiv c (parse_loop c (t1 :: rest) ls st) (parse_loop c (t2 :: rest) ls st).
+Proof. exact sub_name_respell. Qed.
+Print Assumptions C08_sub_name_respell.
